@@ -14,11 +14,16 @@ use vkit::{json, ledger, Value};
 struct CountingWaker {
     wakes: AtomicUsize,
 }
+/// what the original saw of its own strong count at the instant it was last woken (usize::MAX: not woken)
+static SEEN_AT_WAKE: AtomicUsize = AtomicUsize::new(usize::MAX);
 impl Wake for CountingWaker {
     fn wake(self: Arc<Self>) {
+        // by value: the reference that carries the wake is still alive here
+        SEEN_AT_WAKE.store(Arc::strong_count(&self), SeqCst);
         self.wakes.fetch_add(1, SeqCst);
     }
     fn wake_by_ref(self: &Arc<Self>) {
+        SEEN_AT_WAKE.store(Arc::strong_count(self), SeqCst);
         self.wakes.fetch_add(1, SeqCst);
     }
 }
@@ -238,6 +243,7 @@ impl World {
             "PollBegin" | "PollEnd" | "ViewClone" | "ViewWakeByRef" => 0,
             _ => e["t"].as_u64().unwrap() as usize - 1,
         };
+        SEEN_AT_WAKE.store(usize::MAX, SeqCst);
         self.workers[t].tx.send(Some(e.clone())).unwrap();
         self.workers[t].rx.recv().unwrap_or_else(|_| Err("worker died".into()))
     }
@@ -261,7 +267,12 @@ impl World {
                 }
             })
             .collect();
+        let seen = match SEEN_AT_WAKE.load(SeqCst) {
+            usize::MAX => -1,
+            n => n as i64 - self.base as i64,
+        };
         json!({"ocount": Arc::strong_count(&self.orig) as i64 - self.base as i64,
+               "seen": seen,
                "owakes": self.orig.wakes.load(SeqCst),
                "inPoll": self.sh.in_poll.load(SeqCst),
                "fw": fw})
